@@ -836,9 +836,16 @@ func Run(c *core.Ctx) {
 	fams := c01.Families(rnd, jsAlphabet, jsVectors, c.Pick(3, 4), c.Pick(3000, 60000), c.Pick(3000, 60000))
 	var vals []Spec
 	var leaves []string
+	// composite positions exercise the same encoders as the elementary ones (their
+	// point is the parser's quote state and argument separators): they get every
+	// vector / shaped vector / non-string value and every 4th of the other values.
+	everywhere := map[int]bool{}
 	for _, f := range fams {
 		c.Set("leaf_strings_"+f.Name, len(f.Strs))
 		for _, s := range f.Strs {
+			if f.Name == "vectors" || len(vals)%4 == 0 {
+				everywhere[len(vals)] = true
+			}
 			vals = append(vals, MkSpec("str", s))
 		}
 		if f.Name != "exhaustive" && f.Name != "code_points" {
@@ -850,16 +857,20 @@ func Run(c *core.Ctx) {
 	shapes := []string{"named", "arr", "strslice", "mapval", "mapkey", "mapss", "nested", "struct"}
 	for _, s := range jsVectors {
 		for _, sh := range shapes {
+			everywhere[len(vals)] = true
 			vals = append(vals, MkSpec(sh, s))
 		}
 	}
 	for i, n := 0, c.Pick(2500, 50000); i < n; i++ {
+		everywhere[len(vals)] = i%4 == 0
 		vals = append(vals, MkSpec(shapes[rnd.Intn(len(shapes))], leaves[rnd.Intn(len(leaves))]))
 	}
 	for _, s := range jsonLeaves {
+		everywhere[len(vals)] = true
 		vals = append(vals, MkSpec("json", s))
 	}
 	for _, s := range intLeaves {
+		everywhere[len(vals)] = true
 		vals = append(vals, MkSpec("int", s))
 	}
 	c.Set("values_plain_strings", nStr)
@@ -897,6 +908,9 @@ func Run(c *core.Ctx) {
 				for pi := range positions {
 					if positions[pi].Want == nil && v.Shape != "str" {
 						continue // function-name positions take strings only
+					}
+					if _, composite := basePositions[positions[pi].Name]; composite && !everywhere[lo+i] {
+						continue
 					}
 					cs := Case{Pos: positions[pi].Name, V: v}
 					m := ""
